@@ -282,6 +282,15 @@ def build(rnd, tier, flags):
             else:
                 joined.append(ln)
         g.lines = joined
+    if r.chance(40):
+        # lines that are no statements but are kept as nodes next to them: cpp directives and unresolved INCLUDE
+        # lines, anywhere between the lines (also directly in front of a nested scoping unit)
+        out = []
+        for ln in g.lines:
+            if r.chance(12):
+                out.append(r.pick(["#ifdef X", "#endif", "#define N 1", "include 'not_there.inc'", "#include \"x.h\""]))
+            out.append(ln)
+        g.lines = out
     case = {"src": "\n".join(g.lines) + "\n", "scopes": [scope_json(s) for s in g.tops], "refs": refs,
             "meta": {"max_depth": maxd, "mixed_status": any(len(v) == 2 for v in status.values()),
                      "nonblock_do": g.nonblock}}
